@@ -228,6 +228,8 @@ type run struct {
 	cur map[int]call
 	blk map[int]bool
 	thr int64
+	// the sentinel's payment request did not come through once: do not wait for it again
+	noFlush bool
 }
 
 func (r *run) fields(ev kit.Ev, t int, s sched.Status) (returned bool) {
@@ -251,18 +253,24 @@ func (r *run) fields(ev kit.Ev, t int, s sched.Status) (returned bool) {
 	return returned
 }
 
-// flushPays: every Pay request issued so far has reached the stub once the sentinel's request has.
-func (r *run) flushPays() ([]int, []int64, error) {
-	if err := r.acc.Credit(context.Background(), settle.Overlay(sentinel), uint64(r.thr)); err != nil {
-		return nil, nil, fmt.Errorf("sentinel credit: %w", err)
-	}
-	select {
-	case <-r.st.flush:
-	case <-time.After(20 * time.Second):
-		return nil, nil, errors.New("the pay channel was not drained")
+// flushPays: every Pay request issued so far has reached the stub once the sentinel's request has
+// (the pay channel is FIFO).  The sentinel credit is far above any threshold.  If the sentinel's request
+// never shows up the events say flushed = false (and later events do not wait again).
+func (r *run) flushPays() ([]int, []int64, bool, error) {
+	flushed := false
+	if !r.noFlush {
+		if err := r.acc.Credit(context.Background(), settle.Overlay(sentinel), uint64(1000*(r.thr+1))); err != nil {
+			return nil, nil, false, fmt.Errorf("sentinel credit: %w", err)
+		}
+		select {
+		case <-r.st.flush:
+			flushed = true
+		case <-time.After(3 * time.Second):
+			r.noFlush = true
+		}
 	}
 	p, t := r.st.takePays()
-	return p, t, nil
+	return p, t, flushed, nil
 }
 
 func (r *run) probe() [][]bool {
@@ -281,13 +289,13 @@ func (r *run) probe() [][]bool {
 
 // finish an event: pay requests (if a credit may have issued one) and the probe (if nothing is in flight)
 func (r *run) emit(ev kit.Ev, flush bool) error {
-	ev["pays"], ev["paythr"] = []int{}, []int64{}
+	ev["pays"], ev["paythr"], ev["flushed"] = []int{}, []int64{}, true
 	if flush {
-		p, t, err := r.flushPays()
+		p, t, ok, err := r.flushPays()
 		if err != nil {
 			return err
 		}
-		ev["pays"], ev["paythr"] = p, t
+		ev["pays"], ev["paythr"], ev["flushed"] = p, t, ok
 	}
 	ev["idle"] = !r.ctl.AnyRunning()
 	ev["probe"] = [][]bool{}
@@ -366,8 +374,22 @@ func runForced(sc kit.Scenario, out *kit.Out) error {
 		t := kit.Int(op, "t")
 		switch kit.Str(op, "op") {
 		case "call":
+			// the goroutine is still in its previous call (the code went further than the behaviour expected):
+			// let that call finish first
+			for guard := 0; ctl.Running(t) && guard < 8; guard++ {
+				if parked, _ := ctl.Parked(t); !parked {
+					break
+				}
+				if err := r.release(t, true); err != nil {
+					return err
+				}
+			}
 			if ctl.Running(t) {
-				return fmt.Errorf("call: goroutine %d is still in a call", t)
+				ev := kit.Ev{"op": "skipped"}
+				r.fields(ev, t, sched.Status{Kind: "none"})
+				ev["pays"], ev["paythr"], ev["flushed"], ev["idle"], ev["probe"] = []int{}, []int64{}, true, false, [][]bool{}
+				out.Emit(ev)
+				continue
 			}
 			c := callOf(op)
 			r.cur[t] = c
@@ -413,7 +435,7 @@ func runForced(sc kit.Scenario, out *kit.Out) error {
 			if ctl.AnyRunning() {
 				ev := kit.Ev{"op": "stuck"}
 				r.fields(ev, 0, sched.Status{Kind: "none"})
-				ev["pays"], ev["paythr"], ev["idle"], ev["probe"] = []int{}, []int64{}, false, [][]bool{}
+				ev["pays"], ev["paythr"], ev["flushed"], ev["idle"], ev["probe"] = []int{}, []int64{}, true, false, [][]bool{}
 				out.Emit(ev)
 				break
 			}
